@@ -46,8 +46,9 @@ NoSched == 1000      \* check_eject_every = None (the cfg syntax has no negative
 
 ---------------------------------------------------------------------------------------------------
 (* fragments: abstract geometry. forward: [site, site+len); reverse: [site+1-len, site+1)         *)
-(* UMIs are integer codes in the constants: two letters base 4 (A=0 C=1 G=2 N=3), codes >= 16 are one-letter UMIs *)
-UmiOf(c)  == IF c >= 16 THEN <<c - 16>> ELSE <<c \div 4, c % 4>>
+(* UMIs are integer codes in the constants: two letters base 5 (A=0 C=1 G=2 T=3 N=4: AA=0 AC=1 AN=4 CC=6),  *)
+(* codes >= 25 are one-letter UMIs (another length)                                                     *)
+UmiOf(c)  == IF c >= 25 THEN <<c - 25>> ELSE <<c \div 5, c % 5>>
 FStart(f) == IF f.strand = 0 THEN f.site ELSE f.site + 1 - f.len
 FEnd(f)   == IF f.strand = 0 THEN f.site + f.len ELSE f.site + 1
 View(f)   == [cell |-> f.cell, contig |-> f.contig, strand |-> f.strand, site |-> f.site,
@@ -188,9 +189,7 @@ Branch(f) ==
              k == FirstFit(S, pooling, mols, f)
          IN IF k = 0 THEN "new" ELSE IF Cap > 0 /\ Len(mols[k].ids) >= Cap THEN "overflow" ELSE "join"
 
-Take(f, what) ==
-    /\ CanTake(f)
-    /\ Branch(f) = what
+Consume(f, what) ==
     /\ LET S == Append(stream, f)
            r == Step(S, pooling, [B |-> buf, O |-> out], Len(S))
        IN stream' = S /\ buf' = r.B /\ out' = r.O /\ last' = what
@@ -199,10 +198,10 @@ Take(f, what) ==
        ELSE iter' = iter /\ pc' = "loop"               \* `continue`
     /\ UNCHANGED <<sched, pooling, readlen>>
 
-TakeInvalid(f)   == Take(f, "invalid")
-AddToMolecule(f) == Take(f, "join")
-Overflow(f)      == Take(f, "overflow")
-NewMolecule(f)   == Take(f, "new")
+TakeInvalid(f)   == CanTake(f) /\ Branch(f) = "invalid"  /\ Consume(f, "invalid")
+AddToMolecule(f) == CanTake(f) /\ Branch(f) = "join"     /\ Consume(f, "join")
+Overflow(f)      == CanTake(f) /\ Branch(f) = "overflow" /\ Consume(f, "overflow")
+NewMolecule(f)   == CanTake(f) /\ Branch(f) = "new"      /\ Consume(f, "new")
 
 EjectCheck ==
     /\ pc = "check" /\ sched # NoSched /\ iter > sched
@@ -210,8 +209,9 @@ EjectCheck ==
            E[b \in 0 .. Len(buf)] ==          \* buckets in dict order; emitted molecules appended in pop order
                IF b = 0 THEN [B |-> <<>>, O |-> out]
                ELSE LET r == EjectBucket(buf[b].mols, cur.contig, cur["end"])
-                    IN [B |-> Append(E[b - 1].B, [key |-> buf[b].key, mols |-> r.q]),
-                        O |-> E[b - 1].O \o [k \in DOMAIN r.popped |-> Emitted(r.popped[k], Len(stream))]]
+                        prev == E[b - 1]
+                    IN [B |-> Append(prev.B, [key |-> buf[b].key, mols |-> r.q]),
+                        O |-> prev.O \o [k \in DOMAIN r.popped |-> Emitted(r.popped[k], Len(stream))]]
        IN buf' = E[Len(buf)].B /\ out' = E[Len(buf)].O
     /\ iter' = 0 /\ pc' = "loop" /\ last' = "eject"
     /\ UNCHANGED <<stream, sched, pooling, readlen>>
@@ -274,7 +274,7 @@ Inv_Conservation ==          \* D-level: buffer and output together hold every v
     /\ Done => InBuffer = {}
 Inv_C07_ExactlyOnce   == Done => ExactlyOnce(F, out)
 Inv_C07_SamePartition == Done => GroupsOf(out) = GroupsOf(NoEject(stream, pooling))
-Inv_C07_NoPremature   == Done => NoPremature(F, out, Cap)
+Inv_C07_NoPremature   == Done => NoPremature(F, SelectSeq(out, LAMBDA m : ~m.ov), Cap)   \* overflow-rejected singletons are handed out at once by design
 (* both pooling methods give the same molecules when UMIs are compared exactly (radius 0, non-plain) *)
 Inv_C07_PoolingAgnostic ==
     (Done /\ HD = 0 /\ Radius = 0 /\ Kind # "plain" /\ Cap = 0) => GroupsOf(out) = GroupsOf(NoEject(stream, 1 - pooling))
